@@ -39,7 +39,9 @@ def rich_series(rnd, n, kind=None):
         pool = [-2**63, 2**63 - 1, 0, 1, -1, 2**53, 2**53 + 1, -2**53 - 1]
         return pd.Series([rnd.choice(pool) for _ in range(n)], dtype='int64'), kind
     if kind == 'float64':
-        return pd.Series(mask([rnd.choice([-2.5, -1.0, 0.0, 0.5, 1.0, 3.25, 1e-9, 123456.789]) for _ in range(n)], np.nan),
+        return pd.Series(mask([rnd.choice([-2.5, -1.0, 0.0, 0.5, 1.0, 3.25, 1e-9, 123456.789,
+                                                  # values whose shortest exact text needs 16-17 significant digits
+                                                  0.1 + 0.2, -0.7999999999999999, 1 / 3, 2 / 3 * 1e9]) for _ in range(n)], np.nan),
                          dtype='float64'), kind
     if kind == 'float_special':
         pool = [np.inf, -np.inf, 1e308, -1e308, 5e-324, 0.0, -0.0, 1.0, np.nan]
